@@ -460,11 +460,11 @@ def _cli_events(sc):
 # =============================================================================================
 RULE = ("three scenario kinds. (hmm) one instance SHAPE of the genotyping HMM - TLC-enumerated tiny shapes (Gen_C08Shapes: every "
         "sorted sequence of <= 2 reads over 3 columns for one individual / over 2 columns for a trio) plus seeded random shapes "
-        "(single <= 4 reads x <= 10 columns, unrelated pair, trio in three member orders <= 4 columns, quartet; blanks, uncovered "
-        "columns, nested reads) - for which TLC prints the state graph of GenoHMM; each of ~20 random numeric draws (qualities incl. "
+        "(single <= 5 reads x <= 12 columns, unrelated pair, trio in three member orders <= 4 columns, quartet; blanks, uncovered "
+        "columns, nested reads) - for which TLC prints the state graph of GenoHMM; each of 4-20 random numeric draws (qualities incl. "
         "0 and >= 256, priors normalised/unnormalised/with a zero, recombination costs 0-100) is run through the real GenotypeDPTable "
         "and compared with the sum-product over TLC's graph; non-trivial = >= 2 reads share a column. (determine) a batch of "
-        "TLC-enumerated (likelihood triple, threshold) pairs on the grid 1/20 given to the real determine_genotype. (cli) one seeded "
+        "TLC-enumerated (likelihood triple, threshold) pairs on the grid 1/20 (thorough: 1/40) given to the real determine_genotype. (cli) one seeded "
         "world (1-3 samples, optional trio PED, 1-2 chromosomes, 1-6 SNVs, 0-20 reads per sample with errors) run through "
         "`whatshap genotype` in-process with a phred threshold from {0,1,2,3,6,10,13,20,30,50}, priors / --no-priors / --constant, "
         "chromosome and sample selection, prior output; non-trivial = the outputs contain both a called and an uncalled genotype")
@@ -525,28 +525,32 @@ def scenarios(ctx):
     rng = ctx.rng
     scs = []
     # ---- (determine) TLC-enumerated (triple, threshold) pairs ----
-    pairs = _tlc_write("Gen_C08", {"G": 20}, os.path.join(ctx.workdir, "pairs.ndjson"))
+    grid = 20 if q else 40
+    pairs = _tlc_write("Gen_C08", {"G": grid}, os.path.join(ctx.workdir, "pairs.ndjson"))
     pairs = sorted([p["x"], p["y"], p["z"], p["thr"]] for p in pairs)
     ctx.notes["tlc_enumerated_triple_threshold_pairs"] = len(pairs)
     for i in range(0, len(pairs), 250):
-        scs.append({"kind": "determine", "G": 20, "pairs": pairs[i:i + 250]})
+        scs.append({"kind": "determine", "G": grid, "pairs": pairs[i:i + 250]})
     # ---- (hmm) shapes: TLC-enumerated tiny space + seeded random ----
     tiny = _tlc_write("Gen_C08Shapes", {"Sample": 12 if q else 1, "MaxReads": 2}, os.path.join(ctx.workdir, "shapes.ndjson"))
     ctx.notes["tlc_enumerated_shapes"] = len(tiny)
+    ctx.notes["tiny_shape_space"] = "every 12th shape of the enumerated space (514)" if q else "the complete enumerated space"
     shapes = [(s, 4 if q else 6) for s in tiny]
     plan = ([("single", 2, 2), ("single", 3, 3), ("single", 4, 3), ("single", 5, 3), ("single", 5, 2), ("single", 4, 4),
              ("single", 9, 3), ("unrelated", 3, 3), ("trio", 2, 3), ("trio", 3, 3), ("trio", 3, 2), ("trio", 4, 3),
              ("quartet", 2, 2), ("single", 5, 0), ("trio", 2, 0)])
-    reps = 2 if q else 12
+    reps = 2 if q else 40
     for rep in range(reps):
         for kind, m, nr in plan:
             if kind == "quartet" and rep % 2 == 1:
                 continue
             shapes.append((rand_shape(rng, kind, m, nr), 10 if q else 20))
     if not q:
-        for _ in range(6):
+        for _ in range(20):
             shapes.append((rand_shape(rng, "single", 10, 4), 20))
+            shapes.append((rand_shape(rng, "single", 12, 5), 20))
             shapes.append((rand_shape(rng, "trio", 5, 3), 10))
+            shapes.append((rand_shape(rng, "trio", 3, 4), 10))
             shapes.append((rand_shape(rng, "quartet", 3, 3), 6))
     # graphs: TLC explores GenoHMM for batches of shapes, several JVMs side by side
     gdir = os.path.join(ctx.workdir, "graphs")
@@ -576,7 +580,7 @@ def scenarios(ctx):
         draws = [rand_numbers(rng, s, styles[j % len(styles)]) for j in range(ndraw)]
         scs.append({"kind": "hmm", "shape": s, "draws": draws, "graph": os.path.join(gdir, f"g{i}.json")})
     # ---- (cli) worlds ----
-    for i in range(60 if q else 600):
+    for i in range(60 if q else 2500):
         scs.append(rand_cli(rng, i))
     return scs
 
